@@ -8,12 +8,93 @@ ASSUMPTIONS = c01.ASSUMPTIONS + [
     "column order is judged positionally except after a group whose pipeline keeps rows (order undocumented): there columns are matched by name",
     "the result is also compared with the compiler's own final frame (RQ relation.columns) when that frame has no wildcard",
     "a result column named by a generated pattern (_expr_N / table_N) that is neither in the frame nor a user name is reported as a leaked helper column",
+    "for sql.duckdb / sql.snowflake / sql.bigquery the result columns are those the SQL scope monitor derives from the parsed statement and the schema (stars expanded, `EXCLUDE` / `EXCEPT` lists removed); statements with a relation whose columns are not fully known are not judged",
     "SQLite's `name:N` renaming of duplicate sub-query result names is treated as an engine artifact",
 ]
 
 
+def star_matrix(tier):
+    """Enumerated for the dialects with `* EXCLUDE (..)`: one SELECT with two or three stars (a join of opaque
+    tables, the default frame) where the relation behind the first / second / both stars is a sub-query that
+    carries a column the final frame does not have (derived, used by a later filter or not, then excluded)
+    x what splits the query (take n, take a..b, filter | take) x one or two joins x inner / left."""
+    col = lambda n, q=None: ["col", q, n]
+    progs = []
+    splits = {"take": [{"t": "take", "lo": None, "hi": 5, "plain": True}], "range": [{"t": "take", "lo": 1, "hi": 6, "plain": False}],
+              "filter_take": [{"t": "filter", "cond": ["bin", ">", col("id"), ["lit", 0]]}, {"t": "take", "lo": None, "hi": 5, "plain": True}]}
+    for hide_main in (False, True):
+        for hide_join in (False, True):
+            for use_later in (False, True):
+                for sname, split in splits.items():
+                    for njoins in (1, 2):
+                        for side in ("inner", "left"):
+                            for excl_mode in ("one_step", "two_steps"):
+                                if not (hide_main or hide_join):
+                                    if use_later or excl_mode == "two_steps":
+                                        continue
+                                if excl_mode == "two_steps" and not (hide_main and hide_join):
+                                    continue
+                                main = [{"t": "from", "src": {"k": "table", "name": "t1"}, "alias": None}]
+                                if hide_main:
+                                    main.append({"t": "derive", "items": [["x", ["bin", "+", col("a"), ["lit", 1]]]]})
+                                main += split
+                                if hide_join:
+                                    jp = [{"t": "from", "src": {"k": "table", "name": "t2"}, "alias": None},
+                                          {"t": "derive", "items": [["y", ["bin", "+", col("c"), ["lit", 1]]]]},
+                                          {"t": "take", "lo": None, "hi": 4, "plain": True}]
+                                    jsrc = {"k": "pipe", "pipe": jp}
+                                else:
+                                    jsrc = {"k": "table", "name": "t2"}
+                                main.append({"t": "join", "src": jsrc, "alias": "j", "side": side, "explicit_side": side != "inner",
+                                             "cond": ["bin", "==", col("id", "t1"), col("id", "j")]})
+                                if njoins == 2:
+                                    main.append({"t": "join", "src": {"k": "table", "name": "t3"}, "alias": "j2", "side": "inner",
+                                                 "cond": ["bin", "==", col("k", "t1"), col("k", "j2")]})
+                                hidden = ([col("x")] if hide_main else []) + ([col("y", "j")] if hide_join else [])
+                                if use_later:
+                                    for h in hidden:
+                                        main.append({"t": "filter", "cond": ["bin", ">", h, ["lit", -1000]]})
+                                if hidden:
+                                    if excl_mode == "one_step":
+                                        main.append({"t": "exclude", "cols": hidden})
+                                    else:
+                                        for h in hidden:
+                                            main.append({"t": "exclude", "cols": [h]})
+                                progs.append({"lets": [], "main": main, "cuts": []})
+    # small tables: every take covers its input, so the model never has to call a row choice unspecified
+    db = {"t1": {"cols": ["id", "k", "a", "b", "s"], "types": ["int", "int", "int", "float", "text"], "rows": [[1, 1, 4, 0.5, "x"], [2, 1, None, 1.5, "y"], [3, 2, 2, None, "x"]]},
+          "t2": {"cols": ["id", "k", "a", "c", "s"], "types": ["int", "int", "int", "int", "text"], "rows": [[1, 1, 4, 10, "x"], [2, 1, 1, None, "y"], [4, 2, 2, 5, "z"]]},
+          "t3": {"cols": ["k", "d", "e"], "types": ["int", "int", "text"], "rows": [[1, 2, "p"], [2, 5, "q"], [2, 6, "r"]]}}
+    return db, progs
+
+
+def matrix_phase(run, tier, seed):
+    from .. import core
+    db, progs = star_matrix(tier)
+    N = core.NCPU
+    kws = [dict(prop="C05", seed=seed, shard=i, n_cases=0, profile="project", props=PROPS, fixed=[(db, progs[i::N])], reduce_budget=6,
+                dialects=relcheck.STATIC_DIALECTS) for i in range(N)]
+    res = core.run_shards(relcheck.explore_shard, kws)
+    obs = relcheck.merge_obs([o for _, o in res])
+    for v, _ in res:
+        run.extend(v)
+    run.coverage["star_matrix"] = {"programs": len(progs), "executions": obs.get("cases", 0), "static_frames_judged": obs.get("static_frames_judged", 0),
+                                   "with_exclusion": obs.get("static_frames_with_exclusion", 0),
+                                   "with_exclusion_and_several_stars": obs.get("static_frames_with_exclusion_and_several_stars", 0),
+                                   "rejected": obs.get("rejected", 0), "static_open": obs.get("static_open", 0), "model_error": obs.get("model_error", 0),
+                                   "cells": "hidden column behind the first / second / both stars x used later or not x {take n, take a..b, filter | take} x 1-2 joins x inner/left x exclusion in one or two steps; sql.duckdb, sql.snowflake, sql.bigquery"}
+    run.coverage["evaluations"] = run.coverage.get("evaluations", 0) + obs.get("cases", 0)
+
+
 def run(tier, seed):
-    return c01.explore("C05", PROPS, [("project", 0.6), ("core", 0.2), ("sort", 0.2), ("shared", 0.2)], tier, seed, 900, 40000, ASSUMPTIONS)
+    r = explore_(tier, seed)
+    matrix_phase(r, tier, seed)
+    return r
+
+
+def explore_(tier, seed):
+    return c01.explore("C05", PROPS, [("project", 0.6), ("core", 0.2), ("sort", 0.2), ("shared", 0.2)], tier, seed, 1350, 60000, ASSUMPTIONS, rotate=relcheck.STATIC_DIALECTS,
+                       rule_extra="every program is additionally compiled for one of sql.duckdb / sql.snowflake / sql.bigquery (rotating); those statements are not executed: their result columns are computed from the parsed statement (`* EXCLUDE/EXCEPT (..)` applied) over the database schema and compared with the frame")
 
 
 def replay(case):
